@@ -8,7 +8,7 @@ import msggen
 
 THEOREMS = ["C16.c16_valid_iff", "decode_ok", "C04.c04_prim_reject", "C04.c04_prim_accept",
             "decode_sound", "AcceptIff.type_accept_iff", "AcceptIff.command_accept_iff", "AcceptIff.response_accept_iff",
-            "runWalker_ve", "C04.c04_shown_fields_valid", "C04.c04_prim_error_is_invalid"]
+            "runWalker_gd", "C04.c04_tables", "C04.strict_link", "C04.c04_shown_fields_valid", "C04.c04_prim_error_is_invalid"]
 
 
 def run(ctx, replay_case):
@@ -77,5 +77,6 @@ def run(ctx, replay_case):
 
 
 PROP = {"targets": ["TpmProofs.Props.AcceptIff"], "module": "TpmProofs.Props.AcceptIff", "theorems": THEOREMS, "run": run,
-        "assumptions": ["'first offending field in wire order, earlier events emitted' over whole messages is monitored + tied by correspondence; "
-                        "the per-field accept/reject rule and validity = membership in the declared set are theorems"]}
+        "assumptions": ["the per-field accept/reject rule, validity = membership in the declared set, and 'every field a strict decode shows is valid for "
+                        "the table's primitive type of its class' (first offender, every input) are theorems; the exact error text of whole malformed "
+                        "messages is monitored + tied by correspondence"]}
